@@ -104,6 +104,12 @@ func (ex *Exec) staticCall(st *State, fr *Frame, callee *ssa.Function, binds []*
 		// closures without contract are inlined
 		cs = &FuncSpec{Key: key, Inline: true, Loops: map[int]*LoopSpec{}, Opaque: map[string]bool{}}
 	}
+	if cexMode && (cs == nil || !cs.Assumed) && len(body.Blocks) > 0 && strings.HasPrefix(funcPkgPath(body), modulePath) {
+		// counterexample search: use the callee's body instead of its contract
+		ics := &FuncSpec{Key: key, Inline: true, Loops: map[int]*LoopSpec{}, Opaque: map[string]bool{}}
+		ex.inlineCall(st, fr, body, ics, subst, binds, args, instr, k)
+		return
+	}
 	if cs == nil {
 		panic(oos("call to " + key + " which has no contract"))
 	}
